@@ -598,8 +598,47 @@ func relevantHyps(hyps []*Term, goal *Term) []*Term {
 func (p *Program) buildQueryOpt(o *Obligation, unfoldDepth int, filter bool) string {
 	var asserts []*Term
 	asserts = append(asserts, o.Hyps...)
-	asserts = append(asserts, p.globalAxioms()...)
 	asserts = append(asserts, flattenAnd(o.PC)...)
+	// global axioms (from `axiom` clauses): only those that talk about a spec function occurring in this
+	// obligation (an axiom about symbols the query does not mention cannot help, and its quantifier only
+	// disturbs the instantiation heuristics of the solvers)
+	{
+		ops := map[string]bool{}
+		seenT := map[*Term]bool{}
+		for _, a := range asserts {
+			collect(a, seenT, func(t *Term) { ops[t.Op] = true })
+		}
+		collect(o.Goal, seenT, func(t *Term) { ops[t.Op] = true })
+		pending := append([]*Term{}, p.globalAxioms()...)
+		for changed := true; changed; {
+			changed = false
+			var rest []*Term
+			for _, ax := range pending {
+				rel := false
+				axOps := map[string]bool{}
+				collect(ax, map[*Term]bool{}, func(t *Term) {
+					if strings.HasPrefix(t.Op, "pf.") {
+						axOps[t.Op] = true
+						if ops[t.Op] {
+							rel = true
+						}
+					}
+				})
+				if rel || len(axOps) == 0 {
+					asserts = append(asserts, ax)
+					for k := range axOps {
+						if !ops[k] {
+							ops[k] = true
+							changed = true
+						}
+					}
+				} else {
+					rest = append(rest, ax)
+				}
+			}
+			pending = rest
+		}
+	}
 	if filter {
 		asserts = relevantHyps(asserts, o.Goal)
 	}
